@@ -123,9 +123,15 @@ def render(spec):
         w.append(decos(rinv) + "@dataclasses.dataclass\nclass Root{}:\n    v: int = 1\n".format("(" + bases + ")" if bases else "") + MEMBERS)
     else:
         w.append(decos(rinv) + "class Root{}:\n".format("(" + bases + ")" if bases else ""))
+        if style in ("list_base", "exc_base"):
+            # the constructor is the C-level one of a built-in base (list.__init__, Exception.__init__)
+            w[-1] = decos(rinv) + "class Root({}{}):\n".format("list" if style == "list_base" else "Exception", ", " + bases if bases else "")
+            w.append("    v = 1\n")
         if style == "slots":
             w.append("    __slots__ = ('v', 'w')\n")
-        if style == "no_init":
+        if style in ("list_base", "exc_base"):
+            pass
+        elif style == "no_init":
             w.append("    v = 1\n")
         elif style == "aliased":
             # the constructor and __setattr__ are helper functions bound under the special names by assignment
@@ -242,7 +248,7 @@ def specs(tier):
     inv_opts_t = inv_opts_q + [["C", "C"], ["C", "A"], ["S", "S"], ["S", "A"], ["A", "S"], ["A", "A"]]
     inv_opts = inv_opts_q if tier == "quick" else inv_opts_t
     for base in ("object", "DBC"):
-        for style in ("plain", "slots", "dataclass", "namedtuple", "no_init", "user_new", "getattribute", "aliased"):
+        for style in ("plain", "slots", "dataclass", "namedtuple", "no_init", "user_new", "getattribute", "aliased", "list_base", "exc_base"):
             if style == "namedtuple" and base == "DBC":
                 continue
             for invs in inv_opts:
